@@ -76,7 +76,9 @@ pub struct Subject {
 pub fn run_history(s: &Subject, hist: &[H], rep: &mut Report) -> Option<(Value, String)> {
     let r = guard(|| -> Option<(Value, String)> {
         let lt = s.cfg.layers.tag();
-        let mut rd = match ArchiveReader::from_config(Cursor::new(&s.archive[..]), prog::reader_config(&[0])) {
+        // one history in four runs over a source that returns at most 3 bytes per read call
+        let cap = if fnv(format!("{hist:?}").as_bytes()) % 4 == 0 { 3 } else { usize::MAX };
+        let mut rd = match ArchiveReader::from_config(prog::CapRead { inner: Cursor::new(&s.archive[..]), cap }, prog::reader_config(&[0])) {
             Ok(r) => r,
             Err(e) => return Some((json!({"kind": "open_failed", "layers": lt}), format!("{e:?}"))),
         };
@@ -283,7 +285,7 @@ pub fn run(started: Instant) -> i32 {
         rep,
         Meta {
             level: "model_checking",
-            rule: "for each subject archive (3 programs x 4 layer combinations, real writer) ALL histories of exactly `depth` operations over {list, open(f) for 3 files (dropping the previously open file object, possibly midway), read(k) k in {0,1,3,7,64,1000} on the open file, hash(f), get_file+get_hash of an absent name, linear_extract of every file (exact bytes)} are executed on one real ArchiveReader, checking at every step: listing, size, hash and the bytes returned since the last open equal the file read alone on a fresh reader; zero-length result only at end of file. No pruning. states = distinct (subject, history); non-trivial = histories that open at least two files or mix open with hash".to_string(),
+            rule: "for each subject archive (3 programs x 4 layer combinations, real writer) ALL histories of exactly `depth` operations over {list, open(f) for 3 files (dropping the previously open file object, possibly midway), read(k) k in {0,1,3,7,64,1000} on the open file, hash(f), get_file+get_hash of an absent name, linear_extract of every file (exact bytes)} are executed on one real ArchiveReader (one history in four over a source returning at most 3 bytes per read), checking at every step: listing, size, hash and the bytes returned since the last open equal the file read alone on a fresh reader; zero-length result only at end of file. No pruning. states = distinct (subject, history); non-trivial = histories that open at least two files or mix open with hash".to_string(),
             exhaustive: true,
             bounds: json!({"depth": depth, "alphabet": 14, "subjects": subs.len(), "histories_per_subject": hists.len()}),
             assumptions: vec!["scaled constants".to_string()],
